@@ -103,6 +103,10 @@ def run(ctx, prop, relevant):
             design_neg[sw] = r.inv_violated
             if not r.inv_violated:
                 raise MachineryError("PoolDesign with Fix%s=FALSE did not violate any invariant (vacuous model?)" % sw)
+        # informational (not a listed property): liveness of queued requests under a healthy cloud - TLC finds the stuck
+        # waiter (job popped, address taken by a direct request); recorded in the evidence, never part of the verdict
+        r = tlc(ctx, "PoolDesign", cfg="PoolDesign_live.cfg", timeout=900, workers=4, allow_fail=True)
+        design_neg["liveness_NoStuckWaiter_violated"] = "NoStuckWaiter" in r.out and "violated" in r.out
     scen = tc.simulate(ctx, "NodePool_mc", "NodePool_gen.cfg", num=24 if q else 300, depth=60)
     bins = go_build_tests(ctx, [PKG])
     traces = run_harness(ctx, bins[PKG], 16, {"VERIF_SCEN": scen, "VERIF_RANDOM": "24" if q else "300"})
